@@ -270,16 +270,23 @@ def _reducer(ctx, desc):
                 maxk = min(n_since - 1, N - 1)
                 for _ in range(op["n"]):
                     kk = int(g.integers(0, maxk + 1))
-                    tok = ["on", "on", "q1", "q2", "q3"][int(g.integers(0, 5))] if kk < maxk else "on"
-                    frac = {"on": 0.0, "q1": 0.25, "q2": 0.5, "q3": 0.75}[tok]
+                    tok = ["on", "on", "q1", "q2", "q3", "snap+", "snap-"][int(g.integers(0, 7))] if kk < maxk else \
+                        ["on", "snap-"][int(g.integers(0, 2))]
+                    frac = {"on": 0.0, "q1": 0.25, "q2": 0.5, "q3": 0.75}.get(tok, 0.0)
                     tview = (kk + frac) * dt
+                    vkw = {}
+                    if tok.startswith("snap"):
+                        # within the tolerance given to view(): the recorded value of that step, not an interpolation
+                        tview = kk * dt + (3e-4 if tok == "snap+" else -3e-4)
+                        vkw = {"tolerance": 1e-3}
+                        ctx.count("views_with_tolerance")
                     if op["mode"] == "scalar":
-                        got = r.view(tview)
+                        got = r.view(tview, **vkw)
                     else:
                         # per-element times: alternate between this time and the exact step
                         tarr = np.full(shape, tview)
                         tarr.reshape(-1)[::2] = kk * dt
-                        got = r.view(torch.from_numpy(tarr))
+                        got = r.view(torch.from_numpy(tarr), **vkw)
                     latest_idx = n_since - 1
                     if frac == 0.0:
                         exp_t = orc.vals[latest_idx - kk]
